@@ -205,7 +205,7 @@ class ASTCFG(dict[str, WritableASTBlock]):
                     elif len(b.jump_targets) == 2:
                         if b.jump_targets[0] == name:
                             b.jump_targets[0] = it
-                        elif b.jump_targets[1] == name:
+                        if b.jump_targets[1] == name:
                             b.jump_targets[1] = it
         self.empty = empty
         return empty
